@@ -129,6 +129,7 @@ def rule_exit(S, starts, need):
     for (_, _, g) in starts:
         flags = set(need.get(g.fid, []))
         check_blocks = set()
+        range_heads = set()
         for b, blk in g.blocks.items():
             if blk.term and len(blk.succ) == 2 and blk.succ[0] != blk.succ[1] and 'cond' in blk.term:
                 c = g.strip(blk.term['cond'], casts=True)
@@ -137,15 +138,19 @@ def rule_exit(S, starts, need):
                     if q in flags:
                         check_blocks.add(b)
             if blk.term and blk.term.get('k') == 'CXXForRangeStmt':
-                check_blocks.add(b)
+                # a range-for over a fixed container is bounded: only its own back edge is cut (the body is
+                # treated as not entered); paths *through* the header stay in the graph
+                range_heads.add(b)
         # is the graph minus check_blocks acyclic?
         color = {}
         cyc = []
 
         def dfs(u, stack):
             color[u] = 1
-            for v in g.blocks[u].succ:
+            for i, v in enumerate(g.blocks[u].succ):
                 if v is None or v in check_blocks:
+                    continue
+                if u in range_heads and i == 0:
                     continue
                 if color.get(v) == 1:
                     cyc.append(stack + [u, v])
